@@ -25,9 +25,13 @@ def canon_schema(v):
     return None if v.schema is None else codec.canon_val(dict(v.schema))
 
 
+REPEAT = {}
+
+
 def submit_real(cls, cfg, base_schema, entry, sch, key=None):
     """returns (outcome, state_after) for one submission through one entry point"""
     Validator.clear_caches()
+    REPEAT.clear()
     try:
         if entry == 'ctor':
             v = cls(copy.deepcopy(sch), **copy.deepcopy(cfg))
@@ -52,6 +56,31 @@ def submit_real(cls, cfg, base_schema, entry, sch, key=None):
         except Exception as e:
             out = ('raised', type(e).__name__)
         after = (canon_schema(v), codec.canon_val(v.allow_unknown) if not isinstance(v.allow_unknown, bool) else v.allow_unknown)
+        if out == ('schema_error',):
+            # the same rejected submission once more on the same validator: nothing of the first attempt may linger
+            Validator.clear_caches()
+            try:
+                if entry == 'setter':
+                    v.schema = copy.deepcopy(sch)
+                elif entry == 'percall':
+                    v.validate({}, schema=copy.deepcopy(sch))
+                elif entry == 'setitem':
+                    v.schema[key] = copy.deepcopy(sch[key])
+                elif entry == 'update':
+                    v.schema.update(copy.deepcopy(sch))
+                elif entry == 'allow_unknown':
+                    v.allow_unknown = copy.deepcopy(sch)
+                REPEAT['last'] = ('accepted',)
+            except SchemaError:
+                REPEAT['last'] = ('schema_error',)
+            except Exception as e:
+                REPEAT['last'] = ('raised', type(e).__name__)
+            # ... and the validator still works with the configuration it had
+            try:
+                v.validate({'zz0': 1, 'unknown_field_zz': {'k': 1}})
+                REPEAT['use'] = ('ok',)
+            except Exception as e:
+                REPEAT['use'] = ('raised', type(e).__name__)
         return out, (before, after)
     except SchemaError:
         return ('schema_error',), None
@@ -112,6 +141,12 @@ def one(ctx, drv, i, prof, case, n_corrupt):
                          % (kind, path, out[1], entry), jcase, classifier='raised:%s' % out[1])
             elif state is not None and state[0] != state[1]:
                 ctx.fail('C04 oracle: a rejected submission through %s changed the schema or allow_unknown' % entry, jcase)
+            elif REPEAT.get('last', ('schema_error',)) != ('schema_error',):
+                ctx.fail('C04 oracle: corrupted schema (%s at %r) rejected through %s, but %s when the same submission is repeated'
+                         % (kind, path, entry, REPEAT['last']), jcase, classifier='accepted-on-repeat:%s' % kind)
+            elif REPEAT.get('use', ('ok',)) != ('ok',):
+                ctx.fail('C04 oracle: after a rejected submission through %s the validator raises %s on a document'
+                         % (entry, REPEAT['use'][1]), jcase)
         # ---- port
         if entry in ('ctor', 'setter', 'percall'):
             entries = [{'entry': 'whole', 'schema': codec.enc_val(sch)}]
